@@ -560,7 +560,7 @@ func c17Check(c c17Case) []vlib.Violation {
 	// "option rules assume a freshly derived option" can name them.
 	if tag := c17Stacked(c); tag != "" {
 		for i := range vs {
-			if strings.Contains(vs[i].Sig, ":option:") {
+			if strings.Contains(vs[i].Sig, ":option:") || (strings.Contains(vs[i].Sig, ":constructor:") && strings.HasPrefix(tag, "stacked-unsupported")) {
 				vs[i].Sig += ":" + tag
 			}
 		}
@@ -638,6 +638,28 @@ func c17Stacked(c c17Case) string {
 			continue
 		}
 		return "stacked-unsupported(" + strings.Join(kinds, ">") + ")"
+	}
+	if tag != "" {
+		return tag
+	}
+	// A rule that names options or their arguments (rename_arguments, a
+	// builder's promote_options_to_constructor) applied to a builder after one
+	// of its options went through a multiplicity-changing rule meets options /
+	// arguments that rule produced: the same root cause.
+	seenMultiplicity := map[string]string{}
+	for _, r := range ordered {
+		bkey := strings.ToLower(r.Pkg + "/" + r.SelA)
+		switch {
+		case r.On == "option" && c17MultiplicityKinds[r.Kind]:
+			if prev, ok := seenMultiplicity[bkey]; ok && prev != r.Kind {
+				return "stacked-unsupported(" + prev + ">" + r.Kind + ")"
+			}
+			seenMultiplicity[bkey] = r.Kind
+		case (r.On == "option" && r.Kind == "rename_arguments") || (r.On == "builder" && r.Kind == "promote_options_to_constructor"):
+			if prev, ok := seenMultiplicity[bkey]; ok {
+				return "stacked-unsupported(" + prev + ">" + r.Kind + ")"
+			}
+		}
 	}
 	return tag
 }
